@@ -15,7 +15,7 @@ def ERCanon (x : ER) : Prop := PosCanon x.num ∧ PosCanon x.den ∧ 0 < EDec.to
 
 theorem rem_spec_nonneg {a b : ED} (ha : PosCanon a) (hb : PosCanon b) (hb0 : 0 < EDec.toNat b.d) :
     PosCanon (EDec.rem a b) ∧ EDec.toNat (EDec.rem a b).d = EDec.toNat a.d % EDec.toNat b.d := by
-  obtain ⟨_, h2, _, h4, _, h6⟩ := divide_spec ha.1 hb.1 (nz_of_nonneg ha.2) (by omega)
+  obtain ⟨_, h2, _, h4, _, h6, _⟩ := divide_spec ha.1 hb.1 (nz_of_nonneg ha.2) (by omega)
   have hn := h6 ha.2
   refine ⟨⟨h4, hn⟩, ?_⟩
   have : (EDec.toNat (EDec.rem a b).d : Int) = ((EDec.toNat a.d % EDec.toNat b.d : Nat) : Int) := by
